@@ -15,6 +15,7 @@ import (
 	"github.com/google/uuid"
 	"go.dedis.ch/kyber/v3"
 	"go.dedis.ch/kyber/v3/pairing"
+	"go.dedis.ch/kyber/v3/suites"
 	"go.dedis.ch/onet/v3"
 	"go.dedis.ch/onet/v3/network"
 	"onetverif/harness/fix"
@@ -177,6 +178,7 @@ func c13exec(c *h.Ctx, cs *h.Case) {
 	var reuseTok *onet.Token
 	var reuseFields [6]string
 	full := strings.HasPrefix(cs.Class, "witness") || strings.HasPrefix(cs.Class, "full")
+	reg := newC13reg()
 	bad := func() { cs.Impl = append(cs.Impl, "bad-op") }
 	nondet := func(kind, what string) {
 		cs.Fail(kind+"-id-nondeterministic", what)
@@ -235,6 +237,9 @@ func c13exec(c *h.Ctx, cs *h.Case) {
 			} else {
 				cs.Fail("roster-derived-id:"+how, "the roster returned by "+how+" has the id "+id+", NewRoster of the same list has "+fresh)
 			}
+		}
+		if d := c13rosterAccessors(roster, members, keys); d != "" {
+			cs.Fail("roster-accessor", d)
 		}
 		o := &c13obj{kind: "roster", id: id}
 		var flat []string
@@ -385,6 +390,36 @@ func c13exec(c *h.Ctx, cs *h.Case) {
 				continue
 			}
 			recordRoster("NewRosterWithRoot")
+		case "rotate":
+			// the current roster with its list rotated left by k becomes the current roster
+			if len(tk) != 3 || roster == nil {
+				bad()
+				continue
+			}
+			k, err := strconv.ParseUint(tk[2], 10, 31)
+			if err != nil {
+				bad()
+				continue
+			}
+			n := len(roster.List)
+			sh := int(k) % n
+			old, oldMembers := roster, members
+			list := append(append([]*network.ServerIdentity{}, roster.List[sh:]...), roster.List[:sh]...)
+			res := onet.NewRoster(list)
+			if res == nil || !adopt(res, nil) {
+				cs.Impl = append(cs.Impl, "err:nil-roster")
+				continue
+			}
+			if d := c13rotationOracle(old, res, oldMembers, keys, sh); d != "" {
+				cs.Fail("roster-rotation", d+" — "+op)
+			}
+			recordRoster("roster")
+		case "svcreg", "svcunreg", "svcid", "protoreg", "peerset", "ideq":
+			obs, o := reg.exec(cs, tk, nondet)
+			if o != nil {
+				objs = append(objs, o)
+			}
+			cs.Impl = append(cs.Impl, obs)
 		case "subset":
 			if len(tk) != 4 || roster == nil {
 				bad()
@@ -495,6 +530,9 @@ func c13exec(c *h.Ctx, cs *h.Case) {
 					cs.Fail("tree-id-depends-on-roster-index", "the same members on the same shape over the same roster get another tree id when the nodes carry other RosterIndex values — "+op)
 					break
 				}
+			}
+			if sig, d := c13rebuildOracle(t, roster); sig != "" {
+				cs.Fail(sig, d+" — "+op)
 			}
 			var pre []string
 			c13pre(desc, &pre)
@@ -1223,11 +1261,117 @@ func c13gen(c *h.Ctx, yield func(*h.Case)) {
 		}
 		emit(class, ops...)
 	}
+	// --- registries: the id a service / protocol name gets is a function of the name alone — whatever
+	// suite the service is registered with, whatever was registered and unregistered before, through the
+	// case's own factory and the global one; names that differ (also by exactly a suite's name) differ in id
+	for i := 0; i < c.Pick(60, 900); i++ {
+		var base []string
+		if i == 0 {
+			base = []string{"", "Skipchain", "ByzCoin", "x", "Count", "Ed25519", "P256"}
+		} else {
+			for j := 0; j < 3+r.Intn(4); j++ {
+				switch r.Intn(3) {
+				case 0:
+					b := make([]byte, 1+r.Intn(24))
+					r.Read(b)
+					base = append(base, string(b))
+				case 1:
+					base = append(base, words[r.Intn(len(words))])
+				default:
+					base = append(base, fmt.Sprintf("svc-%d-%d", i, r.Intn(1000)))
+				}
+			}
+		}
+		var ops []string
+		seen := map[string]bool{}
+		for _, w := range base {
+			if seen[w] {
+				continue
+			}
+			seen[w] = true
+			s1 := c13suiteNames[r.Intn(len(c13suiteNames))]
+			s2 := c13suiteNames[r.Intn(len(c13suiteNames))]
+			// the name a careless concatenation of name and suite would produce
+			cat := w + suites.MustFind(s1).String()
+			hw, hc := h.Hex([]byte(w)), h.Hex([]byte(cat))
+			ops = append(ops, "c13 svcreg "+hw+" -", "c13 svcid "+hw, "c13 svcreg "+hw+" "+s1, "c13 service "+hw,
+				"c13 svcreg "+hc+" -", "c13 svcreg "+hc+" "+s2, "c13 svcunreg "+hw, "c13 svcid "+hw, "c13 svcunreg "+hw,
+				"c13 svcreg "+hw+" "+s2, "c13 protoreg "+hw, "c13 protoreg "+hw, "c13 proto "+hw, "c13 protoreg "+hc)
+			seen[cat] = true
+		}
+		class := "full-registry"
+		if i%10 == 0 {
+			class += " xproc"
+		}
+		emit(class, ops...)
+	}
+	// --- peer-set ids (hash of service id and data) and the Equal / IsNil / String methods of all id types
+	for i := 0; i < c.Pick(60, 900); i++ {
+		sid := make([]byte, 16)
+		r.Read(sid)
+		data := make([]byte, r.Intn(40))
+		r.Read(data)
+		var ops []string
+		ps := func(s, d []byte) { ops = append(ops, "c13 peerset "+hex.EncodeToString(s)+" "+h.Hex(d)) }
+		ps(sid, data)
+		ps(sid, data)
+		ps(sid, nil)
+		ps(sid, append(append([]byte{}, data...), 0))
+		ps(make([]byte, 16), data)
+		ps(make([]byte, 16), nil)
+		s2 := append([]byte{}, sid...)
+		s2[r.Intn(16)] ^= 1 << uint(r.Intn(8))
+		ps(s2, data)
+		if len(data) > 0 {
+			d2 := append([]byte{}, data...)
+			d2[r.Intn(len(d2))] ^= 1 << uint(r.Intn(8))
+			ps(sid, d2)
+			ps(sid, data[1:])
+			// the last byte of the service id moved into the data: the boundary is fixed by the id's length
+			ps(append(append([]byte{}, sid[1:]...), data[0]), data[1:])
+		}
+		other := make([]byte, 16)
+		r.Read(other)
+		nilid := strings.Repeat("00", 16)
+		hs, ho := hex.EncodeToString(sid), hex.EncodeToString(other)
+		ops = append(ops, "c13 ideq "+hs+" "+hs, "c13 ideq "+hs+" "+ho, "c13 ideq "+hs+" "+hex.EncodeToString(s2), "c13 ideq "+nilid+" "+nilid,
+			"c13 ideq "+nilid+" "+hs, "c13 ideq "+hs+" "+nilid)
+		class := "full-peersets"
+		if i%10 == 0 {
+			class += " xproc"
+		}
+		emit(class, ops...)
+	}
+	// --- rotations of a roster: same members, another order, another id (IsRotation / Equal / Contains) -----
+	for i := 0; i < c.Pick(60, 800); i++ {
+		n := 2 + r.Intn(9)
+		withSvc := r.Intn(3) == 0
+		var ks, ms []string
+		for j := 0; j < n; j++ {
+			ks = append(ks, edKey())
+		}
+		for j := 0; j < n; j++ {
+			m := strconv.Itoa(j)
+			if withSvc {
+				ks = append(ks, edKey())
+				m += "/" + strconv.Itoa(n+j)
+			}
+			ms = append(ms, m)
+		}
+		ops := []string{"c13 keys " + strings.Join(ks, " "), "c13 roster " + strings.Join(ms, " ")}
+		for j := 0; j < 4; j++ {
+			ops = append(ops, fmt.Sprintf("c13 rotate %d", r.Intn(2*n+1)))
+		}
+		ops = append(ops, fmt.Sprintf("c13 rotate %d", n), "c13 rotate 1", "c13 tree 0:1,1:0", "c13 rotate 0")
+		emit("rotations", ops...)
+	}
 	// --- malformed stream: both sides must refuse, not guess ------------------------------------
 	emit("malformed", "c13 keys", "c13 keys e00zz", "c13 roster 0", edKeys(2), "c13 roster 0 5", "c13 tree 0:0", idRoster(2),
 		"c13 tree 0:1", "c13 tree 0:1,1:0,1:0", "c13 tree 0:1,7:0", "c13 tree 0-1", "c13 token 00 00 00 00 00 00",
 		"c13 proto zz", "c13 frob", "c13 tree 0:1,1:0", "c13 tree 0@x:0", "c13 tree 0@1@2:0", "c13 concat", "c13 concat 9", "c13 withroot 7",
-		"c13 withroot", "c13 subset 0", "c13 subset 5 1", "c13 tree 0@5:1,1@0:0")
+		"c13 withroot", "c13 subset 0", "c13 subset 5 1", "c13 tree 0@5:1,1@0:0",
+		"c13 svcreg zz -", "c13 svcreg 00 Foo", "c13 svcreg 00", "c13 svcunreg 00", "c13 svcid zz", "c13 svcid 00", "c13 protoreg zz", "c13 peerset 00 00",
+		"c13 peerset 000102030405060708090a0b0c0d0e0f zz", "c13 ideq 00 00", "c13 ideq 000102030405060708090a0b0c0d0e0f 00", "c13 rotate x", "c13 rotate", "c13 rotate 3")
 }
 
 const (
